@@ -185,11 +185,34 @@ CHECKS = {
         "text": "For tuple_key, tuple_key2 and tuple_key_derive: 3,503 schemas of <= 3 elements over {unit, u32, u64, i32, i64, string, bytes and narrower widths where supported}, ascending and (where the format has a marker) descending; all pairs of tuples over boundary domains (every byte-length and sign boundary of the variable-length integers; strings that are empty, contain 0x00 / 0xff, are prefixes of one another, U+00FF, U+10FFFF): byte order of encodings = element-wise order of tuples (reversed for descending), prefix-extension contiguity, decode(encode(t)) = t. Parsers: every byte string <= 3 and every truncation / 1-byte mutation of 10,915 valid keys: Ok or Err, never a panic (sweeps in child processes).",
         "note": "Reference order is Rust's Ord on native values with std::cmp::Reverse. The descending-string prefix defect is recorded as a known finding (needs a format change).",
     },
+    "C10": {
+        "level": "model_checking",
+        "technique": "explicit-state bounded model checking of the real block/SST builders and cursors: every strictly ordered entry sequence up to n over a 20-entry universe x option grid x every cursor program up to L, against a vector reference cursor",
+        "design_ref": "DESIGN.md 4 (C10)",
+        "jobs": {
+            "quick": [{"ws": "harness", "bin": "seq_sst", "args": [], "timeout": 1800}],
+            "thorough": [{"ws": "harness", "bin": "seq_sst", "args": [], "timeout": 7200}],
+        },
+        "text": "Every strictly increasing sequence of <= 3 entries (thorough: <= 2 entries with programs <= 5, <= 3 with <= 4, <= 5 with <= 3) from a 20-entry universe (empty key, prefix-sharing keys, a\\0, 0xff; timestamps 0, 1, 2, MAX; small and 1.4 KiB values, tombstones) x 6 block and 12 SST option rows (restart intervals 1/default in bytes and pairs, 4 KiB blocks, bloom bits) is sealed by the real builders; every cursor program of <= L calls over {seek_to_first, seek_to_last, seek(6 keys), next, prev} on Block and Sst is compared with a vector reference after the last call (key, timestamp, value); Sst::load(key, ts) for every key and 5 timestamps; metadata (first/last key, timestamps, file size, setsum recomputed independently); all 400 out-of-order / duplicate inputs and oversize keys/values must be rejected with nothing written; maximal sizes, multi-block tables with entries on block and restart boundaries, SstMultiBuilder with and without split hints.",
+        "note": "Reference semantics are sst::reference::ReferenceCursor's. The full cross product at L = 5 does not fit; the exact (n, L) tiers are in the evidence bound.",
+    },
+    "C11": {
+        "level": "model_checking",
+        "technique": "explicit-state bounded model checking of the real cursor combinators: every family of small child tables x bounds x timestamps x every cursor program up to L, against a vector cursor built from each combinator's specification sentence",
+        "design_ref": "DESIGN.md 4 (C11)",
+        "jobs": {
+            "quick": [{"ws": "harness", "bin": "seq_cursor", "args": [], "timeout": 1800}],
+            "thorough": [{"ws": "harness", "bin": "seq_cursor", "args": [], "timeout": 7200}],
+        },
+        "text": "Children are in-memory vector cursors with exactly the reference semantics (LazyCursor gets real SSTs on tmpfs). All families of <= 3 tables with <= 2 entries (thorough: up to 3) over keys {a,b,c} x timestamps {1,2,3} x {value, tombstone}, including empty tables, tombstone-only tables and one key's versions split across adjacent tables: MergingCursor = sorted union; ConcatenatingCursor (key-disjoint ordered tables) = concatenation; BoundsCursor with all 25 bound pairs = restriction; PruningCursor at timestamps {0,1,2,3,MAX} = newest version <= t per key unless a tombstone; LazyCursor = the cursor it opens. Every program of <= L calls (quick 3; thorough up to 5 on the small families) including every direction reversal is compared with the specification cursor after the last call.",
+        "note": "436 k cases / 233 M programs in the quick tier. The compositions lsmtk actually builds are exercised end to end by C03.",
+    },
 }
 
 HOOK_COMMITS = ["78dca42", "83c0526", "7e7e701", "cedc0ca"]
 
 ENGINES = [
+    {"name": "sstmc", "path": "harness/sstmc", "serves_properties": ["C10", "C11"], "kind_free_text": "bounded exhaustive entry sequences x cursor programs on real blocks, SSTs and cursor combinators against vector references"},
     {"name": "enumc", "path": "harness/enumc", "serves_properties": ["C14", "C16"], "kind_free_text": "bounded-exhaustive input enumeration for setsum and the tuple-key crates against independent references"},
     {"name": "manimc", "path": "harness/manimc", "serves_properties": ["C13", "C18"], "kind_free_text": "bounded exhaustive operation sequences on the real Manifest, LRU cache and wait list against sequential references"},
     {"name": "codecmc", "path": "harness/codecmc", "serves_properties": ["C15"], "kind_free_text": "bounded-exhaustive input enumeration for buffertk/prototk against an independent wire codec"},
